@@ -53,13 +53,20 @@ impl Property for C06 {
         }
         // a few int/float declarations up front so that typed literals have something to refer to
         for _ in 0..rng.below(3) {
+            ops.push(BOp::Id);
+        }
+        for _ in 0..rng.below(3) {
             ops.push(BOp::Call {
-                method: if rng.chance(1, 2) { "type_int".into() } else { "type_float".into() },
+                method: if rng.chance(1, 2) { (if rng.chance(1, 2) { "type_int" } else { "type_int_id" }).into() } else { (if rng.chance(1, 2) { "type_float" } else { "type_float_id" }).into() },
                 arg_seed: rng.next(),
-                explicit_rid: false,
+                explicit_rid: rng.chance(1, 2),
                 ip_kind: 0,
                 ip_k: 0,
             });
+        }
+        for _ in 0..rng.below(4) {
+            // ids reserved now and used later as explicit result ids (definitions out of numeric order)
+            ops.push(BOp::Id);
         }
         for _ in 0..rng.below(6) {
             ops.push(module_call(rng));
